@@ -9,6 +9,7 @@
   scalar reads.
 -/
 import SeedProofs.Lemmas.C05Heap
+import SeedProofs.Lemmas.C05ProgBuild
 namespace Seed.C05
 open Seed ScopeL HeapL
 
@@ -365,5 +366,711 @@ theorem scalar_opassign_local (fuel : Nat) (σ σ' : State) (sc : List Addr) (na
 
 example : (match bindNextName 5 σ₀ [0] [] c!"m" (5, 0) (sv 1) (some (.Sum, (5, 2))) false with
     | .ok _ σ' => (scopeGet σ' [0] c!"m", scopeGet σ' [0] c!"n") | _ => (none, none)) = (some (sv 8), some (sv 7)) := by decide
+
+end Seed.C05
+
+/-! # End to end: the frame theorems composed through the evaluator
+
+  The theorems above are about the primitives, one step each.  Below they are composed through `evalStmts` /
+  `evalStmt` / `evalExpr` / `bindNext` / `evalCall` into statements about small programs: which state a statement list
+  leaves, what the reads `a[i]`, `a.k`, `a === b` then evaluate to, and which cells are equal to the cells of the
+  initial state.  The setting is the one of a program's top level or of a function body: the chain is `A0 :: sc'`, the
+  innermost scope cell `A0` holds `ms`, `a` is one of its names and `b` is a fresh name.  Sub-evaluations (the
+  right-hand side `e`) are hypotheses at fuel `n`; the conclusions are equations at the exact fuel `n + c` whose
+  right-hand side runs the rest of the program at the fuel the evaluator really gives it (by G1 they hold at every
+  larger fuel).  The single steps with their exact fuel are in Lemmas/C05ProgStep.lean (the same steps as
+  Lemmas/C14This.lean, over the `ScopeL`/`HeapL` lemma family this file uses), the reads that survive a write in
+  Lemmas/C05ProgFrame.lean, the copying statements and the call of a one-parameter function in
+  Lemmas/C05ProgBuild.lean.
+-/
+-- audit: Seed.C05P.stmts_step Seed.C05P.declare_var_stmt Seed.C05P.assign_var_stmt Seed.C05P.opassign_var_stmt Seed.C05P.index_assign_stmt Seed.C05P.prop_assign_stmt Seed.C05P.key_assign_stmt Seed.C05P.call_stmt Seed.C05P.var_read Seed.C05P.var_index_read Seed.C05P.var_prop_read Seed.C05P.var_key_read Seed.C05P.refeq_read Seed.C05P.refeq_vars Seed.C05P.toIndex_lit Seed.C05P.toStr_lit
+-- audit: Seed.C05P.scopeGet_some_frame Seed.C05P.scopeGet_set_list Seed.C05P.scopeGet_set_obj Seed.C05P.scopeGet_declared Seed.C05P.scopeGet_declared_other Seed.C05P.applyBinOp_scalar_state Seed.C05P.sum_ints Seed.C05P.set_set Seed.C05P.list1_literal Seed.C05P.spread_copy Seed.C05P.sum_copy Seed.C05P.range_copy Seed.C05P.freshCopy_declare Seed.C05P.copy_by_spread Seed.C05P.copy_by_sum Seed.C05P.copy_by_range Seed.C05P.copy_by_collect Seed.C05P.call1_spec Seed.C05P.paramEntry_param Seed.C05P.paramEntry_scope Seed.C05P.paramEntry_old
+namespace Seed.C05
+open Seed ScopeL HeapL C05P
+
+/-! ## (1) a mutation through one alias is seen through the other -/
+
+/-- **`b := a; b[i] = e; rest`** -/
+theorem alias_mutation_visible {n : Nat} {σ : State} {A0 : Addr} {sc' : List Addr} {ms : ScopeMap} {a b : List Char}
+    {A : Addr} {sa : Option Val} {la : Loc} {items : List SVal} {i : Nat} {e : Expr} {v : SVal}
+    (lb lr lb2 li ls : Loc)
+    (hs : σ.getScope A0 = some ms) (ha : scopeLookup a ms = some (⟨.list A, sa⟩, la))
+    (hb : b ≠ c!"_") (hfresh : scopeLookup b ms = none)
+    (hl : σ.getList A = some items) (hi : i < items.length)
+    (he : evalExpr n (σ.set A0 (.scope ((b, ⟨.list A, sa⟩, lb) :: ms))) (A0 :: sc') e =
+      .ok v (σ.set A0 (.scope ((b, ⟨.list A, sa⟩, lb) :: ms)))) :
+    let σ3 := (σ.set A0 (.scope ((b, ⟨.list A, sa⟩, lb) :: ms))).set A (.list (listSet items i v))
+    (∀ rest, evalStmts (n + 7) σ (A0 :: sc')
+        (.Declare (.mk (.Var b) lb) (.mk (.Var a) lr) ::
+         .Assign (.mk (.Index (.mk (.Var b) lb2) (.mk (.Int (Int.ofNat i)) li)) ls) e :: rest) =
+      evalStmts (n + 5) σ3 (A0 :: sc') rest) ∧
+    (∀ j l1 l2 l3, evalExpr (j + 4) σ3 (A0 :: sc')
+        (.mk (.Index (.mk (.Var a) l1) (.mk (.Int (Int.ofNat i)) l2)) l3) = .ok v σ3) ∧
+    (∀ j l1 l2 l3 l4, evalExpr (j + 2) σ3 (A0 :: sc')
+        (.mk (.BinaryOp .RefEq l3 (.mk (.Var a) l1) (.mk (.Var b) l2)) l4) = .ok (SVal.plain (.bool true)) σ3) ∧
+    σ3.getScope A0 = some ((b, ⟨.list A, sa⟩, lb) :: ms) ∧ σ3.getList A = some (listSet items i v) ∧
+    (∀ c, c ≠ A → c ≠ A0 → σ3.heap[c]? = σ.heap[c]?) ∧ σ3.heap.size = σ.heap.size ∧ σ3.out = σ.out := by
+  intro σ3
+  have hab : a ≠ b := ne_of_lookup ha hfresh
+  have hld : (σ.set A0 (.scope ((b, ⟨.list A, sa⟩, lb) :: ms))).getList A = some items := by
+    rw [getList_set_scope σ A0 _ A hs]; exact hl
+  have hgb := scopeGet_declared sc' b ⟨.list A, sa⟩ lb hs
+  have hga := scopeGet_declared_other sc' ⟨.list A, sa⟩ lb hs hab ha
+  obtain ⟨cur, hcur⟩ := getElem?_of_lt hi
+  have hga3 : scopeGet σ3 (A0 :: sc') a = some ⟨.list A, sa⟩ := by rw [scopeGet_set_list _ hld]; exact hga
+  have hgb3 : scopeGet σ3 (A0 :: sc') b = some ⟨.list A, sa⟩ := by rw [scopeGet_set_list _ hld]; exact hgb
+  have hl3 : σ3.getList A = some (listSet items i v) := getList_set_same _ hld
+  refine ⟨fun rest => ?_, fun j l1 l2 l3 => ?_, fun j l1 l2 l3 l4 => ?_, ?_, hl3, fun c hc hc0 => ?_, ?_, rfl⟩
+  · have hd := declare_var_stmt (n := 0) (sc := sc') lb (var_read 0 lr (scopeGet_head sc' hs ha)) hb hs hfresh
+    rw [stmts_step _ hd (by omega)]
+    have hst := index_assign_stmt (n := n + 2) lb2 ls
+      (evalExpr_fuel_mono he ok_ne_timeout (by omega : n ≤ n + 2 + 2)) hgb (toIndex_lit n _ _ i li) hld hcur
+    rw [stmts_step _ hst (by omega)]
+  · exact var_index_read j l1 l2 l3 hga3 hl3 (listSet_get_same items i v hi)
+  · exact refeq_vars j l1 l2 l3 l4 hga3 hgb3 (by simp [refEq])
+  · rw [getScope_set_list _ hld]; exact getScope_set_same _ (getScope_lt hs)
+  · rw [set_other _ _ _ hc, set_other _ _ _ hc0]
+  · simp [σ3]
+
+
+/-- the same when `e` has effects: whatever `e` does (`σd → σ2`: calls, other mutations, also of the list itself), as
+    long as afterwards `a` and `b` still name the cell `A` and `i` is a position of it, the write goes to that one cell
+    and is seen through `a` -/
+theorem alias_mutation_visible_effects {n : Nat} {σ σ2 : State} {A0 : Addr} {sc' : List Addr} {ms : ScopeMap} {a b : List Char}
+    {A : Addr} {sa sa2 sb2 : Option Val} {la : Loc} {items2 : List SVal} {i : Nat} {e : Expr} {v : SVal}
+    (lb lr lb2 li ls : Loc)
+    (hs : σ.getScope A0 = some ms) (ha : scopeLookup a ms = some (⟨.list A, sa⟩, la))
+    (hb : b ≠ c!"_") (hfresh : scopeLookup b ms = none)
+    (he : evalExpr n (σ.set A0 (.scope ((b, ⟨.list A, sa⟩, lb) :: ms))) (A0 :: sc') e = .ok v σ2)
+    (ha2 : scopeGet σ2 (A0 :: sc') a = some ⟨.list A, sa2⟩) (hb2 : scopeGet σ2 (A0 :: sc') b = some ⟨.list A, sb2⟩)
+    (hl2 : σ2.getList A = some items2) (hi : i < items2.length) :
+    let σ3 := σ2.set A (.list (listSet items2 i v))
+    (∀ rest, evalStmts (n + 7) σ (A0 :: sc')
+        (.Declare (.mk (.Var b) lb) (.mk (.Var a) lr) ::
+         .Assign (.mk (.Index (.mk (.Var b) lb2) (.mk (.Int (Int.ofNat i)) li)) ls) e :: rest) =
+      evalStmts (n + 5) σ3 (A0 :: sc') rest) ∧
+    (∀ j l1 l2 l3, evalExpr (j + 4) σ3 (A0 :: sc')
+        (.mk (.Index (.mk (.Var a) l1) (.mk (.Int (Int.ofNat i)) l2)) l3) = .ok v σ3) ∧
+    (∀ j l1 l2 l3 l4, evalExpr (j + 2) σ3 (A0 :: sc')
+        (.mk (.BinaryOp .RefEq l3 (.mk (.Var a) l1) (.mk (.Var b) l2)) l4) = .ok (SVal.plain (.bool true)) σ3) ∧
+    σ3.getList A = some (listSet items2 i v) ∧
+    (∀ c, c ≠ A → σ3.heap[c]? = σ2.heap[c]?) ∧ σ3.heap.size = σ2.heap.size ∧ σ3.out = σ2.out := by
+  intro σ3
+  obtain ⟨cur, hcur⟩ := getElem?_of_lt hi
+  have hga3 : scopeGet σ3 (A0 :: sc') a = some ⟨.list A, sa2⟩ := by rw [scopeGet_set_list _ hl2]; exact ha2
+  have hgb3 : scopeGet σ3 (A0 :: sc') b = some ⟨.list A, sb2⟩ := by rw [scopeGet_set_list _ hl2]; exact hb2
+  have hl3 : σ3.getList A = some (listSet items2 i v) := getList_set_same _ hl2
+  refine ⟨fun rest => ?_, fun j l1 l2 l3 => ?_, fun j l1 l2 l3 l4 => ?_, hl3, fun c hc => set_other _ _ _ hc, ?_, rfl⟩
+  · have hd := declare_var_stmt (n := 0) (sc := sc') lb (var_read 0 lr (scopeGet_head sc' hs ha)) hb hs hfresh
+    rw [stmts_step _ hd (by omega)]
+    have hst := index_assign_stmt (n := n + 2) lb2 ls
+      (evalExpr_fuel_mono he ok_ne_timeout (by omega : n ≤ n + 2 + 2)) hb2 (toIndex_lit n _ _ i li) hl2 hcur
+    rw [stmts_step _ hst (by omega)]
+  · exact var_index_read j l1 l2 l3 hga3 hl3 (listSet_get_same items2 i v hi)
+  · exact refeq_vars j l1 l2 l3 l4 hga3 hgb3 (by simp [refEq])
+  · simp [σ3]
+
+/-- **`b := a; b.k = e; rest`** for an object -/
+theorem alias_mutation_visible_prop {n : Nat} {σ : State} {A0 : Addr} {sc' : List Addr} {ms : ScopeMap} {a b k : List Char}
+    {A : Addr} {sa : Option Val} {la : Loc} {m : ObjMap} {e : Expr} {v : SVal}
+    (lb lr lb2 ls : Loc)
+    (hs : σ.getScope A0 = some ms) (ha : scopeLookup a ms = some (⟨.obj A, sa⟩, la))
+    (hb : b ≠ c!"_") (hfresh : scopeLookup b ms = none) (hm : σ.getObj A = some m)
+    (he : evalExpr n (σ.set A0 (.scope ((b, ⟨.obj A, sa⟩, lb) :: ms))) (A0 :: sc') e =
+      .ok v (σ.set A0 (.scope ((b, ⟨.obj A, sa⟩, lb) :: ms)))) :
+    let σ3 := (σ.set A0 (.scope ((b, ⟨.obj A, sa⟩, lb) :: ms))).set A (.obj (objInsert k v m))
+    (∀ rest, evalStmts (n + 5) σ (A0 :: sc')
+        (.Declare (.mk (.Var b) lb) (.mk (.Var a) lr) ::
+         .Assign (.mk (.Prop (.mk (.Var b) lb2) k false) ls) e :: rest) =
+      evalStmts (n + 3) σ3 (A0 :: sc') rest) ∧
+    (∀ j l1 l2, evalExpr (j + 2) σ3 (A0 :: sc') (.mk (.Prop (.mk (.Var a) l1) k false) l2) =
+      .ok ⟨v.v, some (.obj A)⟩ σ3) ∧
+    (∀ j l1 l2 l3 l4, evalExpr (j + 2) σ3 (A0 :: sc')
+        (.mk (.BinaryOp .RefEq l3 (.mk (.Var a) l1) (.mk (.Var b) l2)) l4) = .ok (SVal.plain (.bool true)) σ3) ∧
+    σ3.getScope A0 = some ((b, ⟨.obj A, sa⟩, lb) :: ms) ∧ σ3.getObj A = some (objInsert k v m) ∧
+    (∀ c, c ≠ A → c ≠ A0 → σ3.heap[c]? = σ.heap[c]?) ∧ σ3.heap.size = σ.heap.size ∧ σ3.out = σ.out := by
+  intro σ3
+  have hab : a ≠ b := ne_of_lookup ha hfresh
+  have hmd : (σ.set A0 (.scope ((b, ⟨.obj A, sa⟩, lb) :: ms))).getObj A = some m := by
+    rw [getObj_set_scope σ A0 _ A hs]; exact hm
+  have hgb := scopeGet_declared sc' b ⟨.obj A, sa⟩ lb hs
+  have hga := scopeGet_declared_other sc' ⟨.obj A, sa⟩ lb hs hab ha
+  have hga3 : scopeGet σ3 (A0 :: sc') a = some ⟨.obj A, sa⟩ := by rw [scopeGet_set_obj _ hmd]; exact hga
+  have hgb3 : scopeGet σ3 (A0 :: sc') b = some ⟨.obj A, sa⟩ := by rw [scopeGet_set_obj _ hmd]; exact hgb
+  have hm3 : σ3.getObj A = some (objInsert k v m) := getObj_set_same _ hmd
+  refine ⟨fun rest => ?_, fun j l1 l2 => ?_, fun j l1 l2 l3 l4 => ?_, ?_, hm3, fun c hc hc0 => ?_, ?_, rfl⟩
+  · have hd := declare_var_stmt (n := 0) (sc := sc') lb (var_read 0 lr (scopeGet_head sc' hs ha)) hb hs hfresh
+    rw [stmts_step _ hd (by omega)]
+    have hst := prop_assign_stmt (n := n) (k := k) lb2 ls
+      (evalExpr_fuel_mono he ok_ne_timeout (by omega : n ≤ n + 2)) hgb hmd
+    rw [stmts_step _ hst (by omega)]
+  · exact var_prop_read j l1 l2 hga3 hm3 (objGet_objInsert_same k v m)
+  · exact refeq_vars j l1 l2 l3 l4 hga3 hgb3 (by simp [refEq])
+  · rw [getScope_set_obj _ hmd]; exact getScope_set_same _ (getScope_lt hs)
+  · rw [set_other _ _ _ hc, set_other _ _ _ hc0]
+  · simp [σ3]
+
+/-- **`b := a; b["k"] = e; rest`** for an object (any key expression `ke` without effects that evaluates to `k`) -/
+theorem alias_mutation_visible_key {n : Nat} {σ : State} {A0 : Addr} {sc' : List Addr} {ms : ScopeMap} {a b k : List Char}
+    {A : Addr} {sa : Option Val} {la : Loc} {m : ObjMap} {e ke : Expr} {v : SVal}
+    (lb lr lb2 ls : Loc)
+    (hs : σ.getScope A0 = some ms) (ha : scopeLookup a ms = some (⟨.obj A, sa⟩, la))
+    (hb : b ≠ c!"_") (hfresh : scopeLookup b ms = none) (hm : σ.getObj A = some m)
+    (he : evalExpr n (σ.set A0 (.scope ((b, ⟨.obj A, sa⟩, lb) :: ms))) (A0 :: sc') e =
+      .ok v (σ.set A0 (.scope ((b, ⟨.obj A, sa⟩, lb) :: ms))))
+    (hke : evalToStr (n + 1) (σ.set A0 (.scope ((b, ⟨.obj A, sa⟩, lb) :: ms))) (A0 :: sc') c!"property" ke =
+      .ok k (σ.set A0 (.scope ((b, ⟨.obj A, sa⟩, lb) :: ms)))) :
+    let σ3 := (σ.set A0 (.scope ((b, ⟨.obj A, sa⟩, lb) :: ms))).set A (.obj (objInsert k v m))
+    (∀ rest, evalStmts (n + 5) σ (A0 :: sc')
+        (.Declare (.mk (.Var b) lb) (.mk (.Var a) lr) ::
+         .Assign (.mk (.Index (.mk (.Var b) lb2) ke) ls) e :: rest) =
+      evalStmts (n + 3) σ3 (A0 :: sc') rest) ∧
+    (∀ j l1 l2, evalExpr (j + 2) σ3 (A0 :: sc') (.mk (.Prop (.mk (.Var a) l1) k false) l2) =
+      .ok ⟨v.v, some (.obj A)⟩ σ3) ∧
+    (utf8Decode (utf8Encode k) = .ok k → ∀ j l1 l2 l3, evalExpr (j + 3) σ3 (A0 :: sc')
+        (.mk (.Index (.mk (.Var a) l1) (.mk (.Str k none) l2)) l3) = .ok ⟨v.v, some (.obj A)⟩ σ3) ∧
+    (∀ j l1 l2 l3 l4, evalExpr (j + 2) σ3 (A0 :: sc')
+        (.mk (.BinaryOp .RefEq l3 (.mk (.Var a) l1) (.mk (.Var b) l2)) l4) = .ok (SVal.plain (.bool true)) σ3) ∧
+    σ3.getScope A0 = some ((b, ⟨.obj A, sa⟩, lb) :: ms) ∧ σ3.getObj A = some (objInsert k v m) ∧
+    (∀ c, c ≠ A → c ≠ A0 → σ3.heap[c]? = σ.heap[c]?) ∧ σ3.heap.size = σ.heap.size ∧ σ3.out = σ.out := by
+  intro σ3
+  have hab : a ≠ b := ne_of_lookup ha hfresh
+  have hmd : (σ.set A0 (.scope ((b, ⟨.obj A, sa⟩, lb) :: ms))).getObj A = some m := by
+    rw [getObj_set_scope σ A0 _ A hs]; exact hm
+  have hgb := scopeGet_declared sc' b ⟨.obj A, sa⟩ lb hs
+  have hga := scopeGet_declared_other sc' ⟨.obj A, sa⟩ lb hs hab ha
+  have hga3 : scopeGet σ3 (A0 :: sc') a = some ⟨.obj A, sa⟩ := by rw [scopeGet_set_obj _ hmd]; exact hga
+  have hgb3 : scopeGet σ3 (A0 :: sc') b = some ⟨.obj A, sa⟩ := by rw [scopeGet_set_obj _ hmd]; exact hgb
+  have hm3 : σ3.getObj A = some (objInsert k v m) := getObj_set_same _ hmd
+  refine ⟨fun rest => ?_, fun j l1 l2 => ?_, fun hk j l1 l2 l3 => ?_, fun j l1 l2 l3 l4 => ?_, ?_, hm3,
+    fun c hc hc0 => ?_, ?_, rfl⟩
+  · have hd := declare_var_stmt (n := 0) (sc := sc') lb (var_read 0 lr (scopeGet_head sc' hs ha)) hb hs hfresh
+    rw [stmts_step _ hd (by omega)]
+    have hst := key_assign_stmt (n := n) lb2 ls
+      (evalExpr_fuel_mono he ok_ne_timeout (by omega : n ≤ n + 2)) hgb hke hmd
+    rw [stmts_step _ hst (by omega)]
+  · exact var_prop_read j l1 l2 hga3 hm3 (objGet_objInsert_same k v m)
+  · exact var_key_read j l1 l2 l3 hk hga3 hm3 (objGet_objInsert_same k v m)
+  · exact refeq_vars j l1 l2 l3 l4 hga3 hgb3 (by simp [refEq])
+  · rw [getScope_set_obj _ hmd]; exact getScope_set_same _ (getScope_lt hs)
+  · rw [set_other _ _ _ hc, set_other _ _ _ hc0]
+  · simp [σ3]
+
+/-! ## (3) scalars are copied -/
+
+/-- **`b := a; b op= e; rest`** where `a` holds a scalar (null, bool, int, string) -/
+theorem scalar_copy_independent {n : Nat} {σ : State} {A0 : Addr} {sc' : List Addr} {ms : ScopeMap} {a b : List Char}
+    {va ve : SVal} {la : Loc} {e : Expr} {op : BinaryOp} {r : Val} {σ' : State} (lb lr lb2 ol : Loc)
+    (hs : σ.getScope A0 = some ms) (ha : scopeLookup a ms = some (va, la))
+    (hk : va.v.kind = .Null ∨ va.v.kind = .Bool ∨ va.v.kind = .Int ∨ va.v.kind = .Str)
+    (hb : b ≠ c!"_") (hfresh : scopeLookup b ms = none)
+    (he : evalExpr n (σ.set A0 (.scope ((b, va, lb) :: ms))) (A0 :: sc') e = .ok ve (σ.set A0 (.scope ((b, va, lb) :: ms))))
+    (hop : applyBinOp n (σ.set A0 (.scope ((b, va, lb) :: ms))) op ol va.v ve.v = .ok r σ') :
+    let σ4 := σ.set A0 (.scope ((b, SVal.plain r, lb) :: ms))
+    (∀ rest, evalStmts (n + 4) σ (A0 :: sc')
+        (.Declare (.mk (.Var b) lb) (.mk (.Var a) lr) :: .OpAssign (.mk (.Var b) lb2) op ol e :: rest) =
+      evalStmts (n + 2) σ4 (A0 :: sc') rest) ∧
+    (∀ j l, evalExpr (j + 1) σ4 (A0 :: sc') (.mk (.Var a) l) = .ok va σ4) ∧
+    (∀ j l, evalExpr (j + 1) σ4 (A0 :: sc') (.mk (.Var b) l) = .ok (SVal.plain r) σ4) ∧
+    (∀ c, c ≠ A0 → σ4.heap[c]? = σ.heap[c]?) ∧ σ4.heap.size = σ.heap.size ∧ σ4.out = σ.out := by
+  intro σ4
+  have hab : a ≠ b := ne_of_lookup ha hfresh
+  have hsd : (σ.set A0 (.scope ((b, va, lb) :: ms))).getScope A0 = some ((b, va, lb) :: ms) :=
+    getScope_set_same _ (getScope_lt hs)
+  have hσ' : σ' = σ.set A0 (.scope ((b, va, lb) :: ms)) := applyBinOp_scalar_state hk hop
+  subst hσ'
+  refine ⟨fun rest => ?_, fun j l => ?_, fun j l => ?_, fun c hc => set_other _ _ _ hc, by simp [σ4], rfl⟩
+  · have hd := declare_var_stmt (n := 0) (sc := sc') lb (var_read 0 lr (scopeGet_head sc' hs ha)) hb hs hfresh
+    rw [stmts_step _ hd (by omega)]
+    have hst := opassign_var_stmt (n := n) (sc := sc') lb2 ol
+      (evalExpr_fuel_mono he ok_ne_timeout (by omega : n ≤ n + 1)) hb hsd (lookup_cons_same b va lb ms) hop hsd
+    rw [setVal_head, set_set] at hst
+    rw [stmts_step _ hst (by omega)]
+  · exact var_read j l (scopeGet_declared_other sc' _ lb hs hab ha)
+  · exact var_read j l (scopeGet_declared sc' b _ lb hs)
+
+/-- **`b := a; b = e; rest`**: assignment re-binds `b`; whatever `a` holds (scalar or container), `a` still holds it -/
+theorem copy_then_assign_independent {n : Nat} {σ : State} {A0 : Addr} {sc' : List Addr} {ms : ScopeMap} {a b : List Char}
+    {va ve : SVal} {la : Loc} {e : Expr} (lb lr lb2 : Loc)
+    (hs : σ.getScope A0 = some ms) (ha : scopeLookup a ms = some (va, la))
+    (hb : b ≠ c!"_") (hfresh : scopeLookup b ms = none)
+    (he : evalExpr n (σ.set A0 (.scope ((b, va, lb) :: ms))) (A0 :: sc') e = .ok ve (σ.set A0 (.scope ((b, va, lb) :: ms)))) :
+    let σ4 := σ.set A0 (.scope ((b, ve, lb) :: ms))
+    (∀ rest, evalStmts (n + 4) σ (A0 :: sc')
+        (.Declare (.mk (.Var b) lb) (.mk (.Var a) lr) :: .Assign (.mk (.Var b) lb2) e :: rest) =
+      evalStmts (n + 2) σ4 (A0 :: sc') rest) ∧
+    (∀ j l, evalExpr (j + 1) σ4 (A0 :: sc') (.mk (.Var a) l) = .ok va σ4) ∧
+    (∀ j l, evalExpr (j + 1) σ4 (A0 :: sc') (.mk (.Var b) l) = .ok ve σ4) ∧
+    (∀ c, c ≠ A0 → σ4.heap[c]? = σ.heap[c]?) ∧ σ4.heap.size = σ.heap.size ∧ σ4.out = σ.out := by
+  intro σ4
+  have hab : a ≠ b := ne_of_lookup ha hfresh
+  have hsd : (σ.set A0 (.scope ((b, va, lb) :: ms))).getScope A0 = some ((b, va, lb) :: ms) :=
+    getScope_set_same _ (getScope_lt hs)
+  refine ⟨fun rest => ?_, fun j l => ?_, fun j l => ?_, fun c hc => set_other _ _ _ hc, by simp [σ4], rfl⟩
+  · have hd := declare_var_stmt (n := 0) (sc := sc') lb (var_read 0 lr (scopeGet_head sc' hs ha)) hb hs hfresh
+    rw [stmts_step _ hd (by omega)]
+    have hst := assign_var_stmt (n := n) (sc := sc') lb2
+      (evalExpr_fuel_mono he ok_ne_timeout (by omega : n ≤ n + 1)) hb hsd (lookup_cons_same b va lb ms)
+    rw [setVal_head, set_set] at hst
+    rw [stmts_step _ hst (by omega)]
+  · exact var_read j l (scopeGet_declared_other sc' _ lb hs hab ha)
+  · exact var_read j l (scopeGet_declared sc' b _ lb hs)
+
+/-- the instance `m := n; m += e` on ints: `n` keeps its value, `m` holds the sum -/
+theorem int_copy_independent {n : Nat} {σ : State} {A0 : Addr} {sc' : List Addr} {ms : ScopeMap} {a b : List Char}
+    {x y : Int} {sx sy : Option Val} {la : Loc} {e : Expr} (lb lr lb2 ol : Loc)
+    (hs : σ.getScope A0 = some ms) (ha : scopeLookup a ms = some (⟨.int x, sx⟩, la))
+    (hb : b ≠ c!"_") (hfresh : scopeLookup b ms = none)
+    (he : evalExpr n (σ.set A0 (.scope ((b, ⟨.int x, sx⟩, lb) :: ms))) (A0 :: sc') e =
+      .ok ⟨.int y, sy⟩ (σ.set A0 (.scope ((b, ⟨.int x, sx⟩, lb) :: ms))))
+    (hr : inI64 (x + y) = true) :
+    let σ4 := σ.set A0 (.scope ((b, SVal.plain (.int (x + y)), lb) :: ms))
+    (∀ rest, evalStmts (n + 4) σ (A0 :: sc')
+        (.Declare (.mk (.Var b) lb) (.mk (.Var a) lr) :: .OpAssign (.mk (.Var b) lb2) .Sum ol e :: rest) =
+      evalStmts (n + 2) σ4 (A0 :: sc') rest) ∧
+    (∀ j l, evalExpr (j + 1) σ4 (A0 :: sc') (.mk (.Var a) l) = .ok ⟨.int x, sx⟩ σ4) ∧
+    (∀ j l, evalExpr (j + 1) σ4 (A0 :: sc') (.mk (.Var b) l) = .ok (SVal.plain (.int (x + y))) σ4) := by
+  have h := scalar_copy_independent (r := .int (x + y)) lb lr lb2 ol hs ha (Or.inr (Or.inr (Or.inl rfl))) hb hfresh he
+    (sum_ints n _ ol x y hr)
+  exact ⟨h.1, h.2.1, h.2.2.1⟩
+
+/-! ## (5) `+=` on a list re-binds, it does not mutate -/
+
+/-- **`b := a; b += [x]; rest`** -/
+theorem opassign_rebinds_not_mutates {n : Nat} {σ : State} {A0 : Addr} {sc' : List Addr} {ms : ScopeMap} {a b : List Char}
+    {A : Addr} {sa : Option Val} {la : Loc} {items : List SVal} {x : Expr} {vx : SVal} (lb lr lb2 ol ll : Loc)
+    (hs : σ.getScope A0 = some ms) (ha : scopeLookup a ms = some (⟨.list A, sa⟩, la))
+    (hb : b ≠ c!"_") (hfresh : scopeLookup b ms = none) (hl : σ.getList A = some items)
+    (hx : evalExpr n (σ.set A0 (.scope ((b, ⟨.list A, sa⟩, lb) :: ms))) (A0 :: sc') x =
+      .ok vx (σ.set A0 (.scope ((b, ⟨.list A, sa⟩, lb) :: ms)))) :
+    let σ4 := ((((σ.set A0 (.scope ((b, ⟨.list A, sa⟩, lb) :: ms))).alloc (.list [vx])).2.alloc
+      (.list (items ++ [vx]))).2).set A0 (.scope ((b, SVal.plain (.list (σ.heap.size + 1)), lb) :: ms))
+    (∀ rest, evalStmts (n + 5) σ (A0 :: sc')
+        (.Declare (.mk (.Var b) lb) (.mk (.Var a) lr) ::
+         .OpAssign (.mk (.Var b) lb2) .Sum ol (.mk (.List [.mk x false] false) ll) :: rest) =
+      evalStmts (n + 3) σ4 (A0 :: sc') rest) ∧
+    σ4.getList A = some items ∧ σ4.getList (σ.heap.size + 1) = some (items ++ [vx]) ∧
+    scopeGet σ4 (A0 :: sc') a = some ⟨.list A, sa⟩ ∧
+    scopeGet σ4 (A0 :: sc') b = some (SVal.plain (.list (σ.heap.size + 1))) ∧
+    (∀ j l1 l2 l3 l4, evalExpr (j + 2) σ4 (A0 :: sc')
+        (.mk (.BinaryOp .RefEq l3 (.mk (.Var a) l1) (.mk (.Var b) l2)) l4) = .ok (SVal.plain (.bool false)) σ4) ∧
+    (∀ c, c < σ.heap.size → c ≠ A0 → σ4.heap[c]? = σ.heap[c]?) ∧ σ4.out = σ.out := by
+  intro σ4
+  have e4 : σ4 = ((((σ.set A0 (.scope ((b, ⟨.list A, sa⟩, lb) :: ms))).alloc (.list [vx])).2.alloc
+      (.list (items ++ [vx]))).2).set A0 (.scope ((b, SVal.plain (.list (σ.heap.size + 1)), lb) :: ms)) := rfl
+  clear_value σ4
+  have hab : a ≠ b := ne_of_lookup ha hfresh
+  generalize hσd : σ.set A0 (.scope ((b, ⟨.list A, sa⟩, lb) :: ms)) = σd at *
+  have hszd : σd.heap.size = σ.heap.size := by rw [← hσd]; simp
+  have hsd : σd.getScope A0 = some ((b, ⟨.list A, sa⟩, lb) :: ms) := by
+    rw [← hσd]; exact getScope_set_same _ (getScope_lt hs)
+  have hld : σd.getList A = some items := by rw [← hσd, getList_set_scope σ A0 _ A hs]; exact hl
+  generalize hσ1 : (σd.alloc (.list [vx])).2 = σ1 at *
+  have hsz1 : σ1.heap.size = σ.heap.size + 1 := by rw [← hσ1, alloc_size, hszd]
+  have hs1 : σ1.getScope A0 = some ((b, ⟨.list A, sa⟩, lb) :: ms) := by rw [← hσ1]; exact getScope_alloc _ hsd
+  have hl1 : σ1.getList A = some items := by rw [← hσ1]; exact getList_alloc _ hld
+  have hL1 : σ1.getList σ.heap.size = some [vx] := by rw [← hσ1, ← hszd]; exact getList_alloc_new σd [vx]
+  generalize hσ2 : (σ1.alloc (.list (items ++ [vx]))).2 = σ2 at *
+  have hs2 : σ2.getScope A0 = some ((b, ⟨.list A, sa⟩, lb) :: ms) := by rw [← hσ2]; exact getScope_alloc _ hs1
+  have hl2 : σ2.getList A = some items := by rw [← hσ2]; exact getList_alloc _ hl1
+  have hN2 : σ2.getList (σ.heap.size + 1) = some (items ++ [vx]) := by
+    rw [← hσ2, ← hsz1]; exact getList_alloc_new σ1 _
+  have hold2 : ∀ c, c < σ.heap.size → σ2.heap[c]? = σd.heap[c]? := by
+    intro c hc
+    have h1 : c < σ1.heap.size := by omega
+    have hd : c < σd.heap.size := by omega
+    rw [← hσ2, alloc_old σ1 _ h1, ← hσ1, alloc_old σd _ hd]
+  have hA : A ≠ σ.heap.size + 1 := by
+    intro e
+    have h := getList_lt hl
+    rw [e] at h
+    exact Nat.lt_irrefl _ (Nat.lt_trans (Nat.lt_succ_self _) h)
+  have hl4 : σ4.getList A = some items := by rw [e4, getList_set_scope σ2 A0 _ A hs2]; exact hl2
+  have hga4 : scopeGet σ4 (A0 :: sc') a = some ⟨.list A, sa⟩ := by
+    rw [e4]
+    exact scopeGet_hit (getScope_set_same _ (getScope_lt hs2)) (by rw [lookup_cons_other hab]; exact ha) sc'
+  have hgb4 : scopeGet σ4 (A0 :: sc') b = some (SVal.plain (.list (σ.heap.size + 1))) := by
+    rw [e4]
+    exact scopeGet_hit (getScope_set_same _ (getScope_lt hs2)) (lookup_cons_same b _ lb ms) sc'
+  refine ⟨fun rest => ?_, hl4, ?_, hga4, hgb4, fun j l1 l2 l3 l4 => ?_, fun c hc hc0 => ?_, ?_⟩
+  · have hd := declare_var_stmt (n := 0) (sc := sc') lb (var_read 0 lr (scopeGet_head sc' hs ha)) hb hs hfresh
+    rw [hσd] at hd
+    rw [stmts_step _ hd (by omega)]
+    have hlit := list1_literal ll hx
+    rw [hσ1, hszd] at hlit
+    have hop : applyBinOp (n + 1) σ1 .Sum ol (.list A) (.list σ.heap.size) = .ok (.list (σ.heap.size + 1)) σ2 := by
+      simp only [applyBinOp, hl1, hL1]
+      rw [← hσ2, ← hsz1, State.alloc]
+    have hst := opassign_var_stmt (n := n + 1) (sc := sc') lb2 ol hlit hb hs1 (lookup_cons_same b _ lb ms) hop hs2
+    rw [setVal_head] at hst
+    rw [stmts_step _ hst (by omega), e4]
+  · rw [e4, getList_set_scope σ2 A0 _ _ hs2]; exact hN2
+  · exact refeq_vars j l1 l2 l3 l4 hga4 hgb4 (by simp [refEq, SVal.plain, hA])
+  · rw [e4, set_other _ _ _ hc0, hold2 c hc, ← hσd, set_other _ _ _ hc0]
+  · rw [e4, ← hσ2, ← hσ1, ← hσd]; rfl
+
+/-! ## (2) a copy is a different container holding the same element values -/
+
+/-- **`<b := copy of a>; b[i] = e; rest`**, for every statement `st` that declares `b` as a fresh copy
+    (`C05P.FreshCopy`; the four forms are `copy_by_spread` `b := [a..]`, `copy_by_sum` `b := a + []`,
+    `copy_by_range` `b := a[0:k]`, `copy_by_collect` `[..b] := a`): `a`'s cell and every other cell that existed are
+    untouched by the mutation of `b`, `a === b` is false, and the elements are shared — position `j ≠ i` of `b` still
+    reads the element value the copy put there, and where `a[j]` and `b[j]` hold the same list cell `C`,
+    `b[j] === a[j]` is true. -/
+theorem copy_mutation_invisible {n k : Nat} {σ σ1 : State} {A0 : Addr} {sc' : List Addr} {ms : ScopeMap} {a b : List Char}
+    {A B : Addr} {sa : Option Val} {la : Loc} {items ys : List SVal} {i : Nat} {st : Stmt} {e : Expr} {v : SVal}
+    (lb lb2 li ls : Loc)
+    (hcopy : C05P.FreshCopy k σ A0 sc' ms st b lb B ys σ1) (hk : k ≤ n + 6)
+    (hs : σ.getScope A0 = some ms) (ha : scopeLookup a ms = some (⟨.list A, sa⟩, la)) (hfresh : scopeLookup b ms = none)
+    (hl : σ.getList A = some items) (hi : i < ys.length)
+    (he : evalExpr n (σ1.set A0 (.scope ((b, SVal.plain (.list B), lb) :: ms))) (A0 :: sc') e =
+      .ok v (σ1.set A0 (.scope ((b, SVal.plain (.list B), lb) :: ms)))) :
+    let σ3 := (σ1.set A0 (.scope ((b, SVal.plain (.list B), lb) :: ms))).set B (.list (listSet ys i v))
+    (∀ rest, evalStmts (n + 7) σ (A0 :: sc')
+        (st :: .Assign (.mk (.Index (.mk (.Var b) lb2) (.mk (.Int (Int.ofNat i)) li)) ls) e :: rest) =
+      evalStmts (n + 5) σ3 (A0 :: sc') rest) ∧
+    σ3.getList A = some items ∧ σ3.getList B = some (listSet ys i v) ∧ B ≠ A ∧
+    (∀ j w, items[j]? = some w → ∀ f l1 l2 l3, evalExpr (f + 4) σ3 (A0 :: sc')
+        (.mk (.Index (.mk (.Var a) l1) (.mk (.Int (Int.ofNat j)) l2)) l3) = .ok w σ3) ∧
+    (∀ f l1 l2 l3, evalExpr (f + 4) σ3 (A0 :: sc')
+        (.mk (.Index (.mk (.Var b) l1) (.mk (.Int (Int.ofNat i)) l2)) l3) = .ok v σ3) ∧
+    (∀ j w, j ≠ i → ys[j]? = some w → ∀ f l1 l2 l3, evalExpr (f + 4) σ3 (A0 :: sc')
+        (.mk (.Index (.mk (.Var b) l1) (.mk (.Int (Int.ofNat j)) l2)) l3) = .ok w σ3) ∧
+    (∀ f l1 l2 l3 l4, evalExpr (f + 2) σ3 (A0 :: sc')
+        (.mk (.BinaryOp .RefEq l3 (.mk (.Var a) l1) (.mk (.Var b) l2)) l4) = .ok (SVal.plain (.bool false)) σ3) ∧
+    (∀ j C s s', j ≠ i → items[j]? = some ⟨.list C, s⟩ → ys[j]? = some ⟨.list C, s'⟩ →
+      ∀ f l1 l2 l3 l4 l5 l6 l7 l8, evalExpr (f + 5) σ3 (A0 :: sc')
+        (.mk (.BinaryOp .RefEq l7
+          (.mk (.Index (.mk (.Var b) l1) (.mk (.Int (Int.ofNat j)) l2)) l3)
+          (.mk (.Index (.mk (.Var a) l4) (.mk (.Int (Int.ofNat j)) l5)) l6)) l8) = .ok (SVal.plain (.bool true)) σ3) ∧
+    (∀ c, c < σ.heap.size → c ≠ A0 → σ3.heap[c]? = σ.heap[c]?) ∧ σ3.out = σ.out := by
+  intro σ3
+  have e3 : σ3 = (σ1.set A0 (.scope ((b, SVal.plain (.list B), lb) :: ms))).set B (.list (listSet ys i v)) := rfl
+  clear_value σ3
+  have hab : a ≠ b := ne_of_lookup ha hfresh
+  have hAlt : A < σ.heap.size := getList_lt hl
+  have hBA : B ≠ A := by
+    intro e'
+    have h := hcopy.fresh
+    rw [e'] at h
+    exact Nat.lt_irrefl _ (Nat.lt_of_lt_of_le hAlt h)
+  have hs1 : σ1.getScope A0 = some ms := by rw [getScope_congr (hcopy.old A0 (getScope_lt hs))]; exact hs
+  have hl1 : σ1.getList A = some items := by rw [getList_congr (hcopy.old A hAlt)]; exact hl
+  generalize hσd : σ1.set A0 (.scope ((b, SVal.plain (.list B), lb) :: ms)) = σd at *
+  have hld : σd.getList A = some items := by rw [← hσd, getList_set_scope σ1 A0 _ A hs1]; exact hl1
+  have hBd : σd.getList B = some ys := by rw [← hσd, getList_set_scope σ1 A0 _ B hs1]; exact hcopy.cell
+  have hgb : scopeGet σd (A0 :: sc') b = some (SVal.plain (.list B)) := by
+    rw [← hσd]; exact scopeGet_declared sc' b _ lb hs1
+  have hga : scopeGet σd (A0 :: sc') a = some ⟨.list A, sa⟩ := by
+    rw [← hσd]; exact scopeGet_declared_other sc' _ lb hs1 hab ha
+  obtain ⟨cur, hcur⟩ := getElem?_of_lt hi
+  subst e3
+  have hga3 : scopeGet (σd.set B (.list (listSet ys i v))) (A0 :: sc') a = some ⟨.list A, sa⟩ := by
+    rw [scopeGet_set_list _ hBd]; exact hga
+  have hgb3 : scopeGet (σd.set B (.list (listSet ys i v))) (A0 :: sc') b = some (SVal.plain (.list B)) := by
+    rw [scopeGet_set_list _ hBd]; exact hgb
+  have hB3 : (σd.set B (.list (listSet ys i v))).getList B = some (listSet ys i v) := getList_set_same _ hBd
+  have hA3 : (σd.set B (.list (listSet ys i v))).getList A = some items := by
+    rw [getList_set_other _ (Ne.symm hBA)]; exact hld
+  have hreadA : ∀ j w, items[j]? = some w → ∀ f l1 l2 l3, evalExpr (f + 4) (σd.set B (.list (listSet ys i v))) (A0 :: sc')
+      (.mk (.Index (.mk (.Var a) l1) (.mk (.Int (Int.ofNat j)) l2)) l3) = .ok w (σd.set B (.list (listSet ys i v))) :=
+    fun j w hw f l1 l2 l3 => var_index_read f l1 l2 l3 hga3 hA3 hw
+  have hreadB : ∀ j w, j ≠ i → ys[j]? = some w → ∀ f l1 l2 l3,
+      evalExpr (f + 4) (σd.set B (.list (listSet ys i v))) (A0 :: sc')
+      (.mk (.Index (.mk (.Var b) l1) (.mk (.Int (Int.ofNat j)) l2)) l3) = .ok w (σd.set B (.list (listSet ys i v))) :=
+    fun j w hj hw f l1 l2 l3 => var_index_read f l1 l2 l3 hgb3 hB3 (by rw [listSet_get_other ys i j v hj]; exact hw)
+  refine ⟨fun rest => ?_, hA3, hB3, hBA, hreadA, fun f l1 l2 l3 => ?_, hreadB, fun f l1 l2 l3 l4 => ?_,
+    fun j C s s' hj h1 h2 f l1 l2 l3 l4 l5 l6 l7 l8 => ?_, fun c hc hc0 => ?_, ?_⟩
+  · rw [stmts_step _ hcopy.run hk, hσd]
+    have hst := index_assign_stmt (n := n + 2) lb2 ls
+      (evalExpr_fuel_mono he ok_ne_timeout (by omega : n ≤ n + 2 + 2)) hgb (toIndex_lit n _ _ i li) hBd hcur
+    rw [stmts_step _ hst (by omega)]
+  · exact var_index_read f l1 l2 l3 hgb3 hB3 (listSet_get_same ys i v hi)
+  · exact refeq_vars f l1 l2 l3 l4 hga3 hgb3 (by simp [refEq, SVal.plain, Ne.symm hBA])
+  · exact refeq_read l7 l8 (hreadB j _ hj h2 f l1 l2 l3) (hreadA j _ h1 f l4 l5 l6) (by simp [refEq])
+  · have hcB : c ≠ B := by
+      intro e'
+      have h := hcopy.fresh
+      rw [← e'] at h
+      exact Nat.lt_irrefl _ (Nat.lt_of_lt_of_le hc h)
+    rw [set_other _ _ _ hcB, ← hσd, set_other _ _ _ hc0, hcopy.old c hc]
+  · rw [← hσd]; exact hcopy.out
+
+/-! ## (4) an argument is the caller's container; a parameter is the callee's variable -/
+
+/-- **`fn f(p) { p[i] = e; }` … `f(a); rest`**: the call writes the cell `a` denotes -/
+theorem argument_alias {n : Nat} {σ : State} {sc clo : List Addr} {f a p : List Char} {F A : Addr} {sa : Option Val}
+    {name : Option (List Char)} {items : List SVal} {i : Nat} {e : Expr} {v : SVal} (lp lp2 li ls lf la lc : Loc)
+    (hf : scopeGet σ sc f = some ⟨.func F, none⟩)
+    (hfr : σ.getFunc F = some ⟨name, [.mk (.Var p) lp], false,
+      [.Assign (.mk (.Index (.mk (.Var p) lp2) (.mk (.Int (Int.ofNat i)) li)) ls) e], clo⟩)
+    (hp : p ≠ c!"_") (ha : scopeGet σ sc a = some ⟨.list A, sa⟩) (hl : σ.getList A = some items) (hi : i < items.length)
+    (he : evalExpr n (C05P.paramEntry σ p lp ⟨.list A, sa⟩) (σ.heap.size :: clo) e =
+      .ok v (C05P.paramEntry σ p lp ⟨.list A, sa⟩)) :
+    let σ' := (C05P.paramEntry σ p lp ⟨.list A, sa⟩).set A (.list (listSet items i v))
+    evalCall (n + 8) σ sc (.mk (.Var f) lf) [.mk (.mk (.Var a) la) false] lc = .ok (SVal.plain .null) σ' ∧
+    (∀ rest, evalStmts (n + 11) σ sc
+        (.Expr (.mk (.Call (.mk (.Var f) lf) [.mk (.mk (.Var a) la) false]) lc) :: rest) =
+      evalStmts (n + 10) σ' sc rest) ∧
+    scopeGet σ' sc a = some ⟨.list A, sa⟩ ∧ σ'.getList A = some (listSet items i v) ∧
+    (∀ j l1 l2 l3, evalExpr (j + 4) σ' sc
+        (.mk (.Index (.mk (.Var a) l1) (.mk (.Int (Int.ofNat i)) l2)) l3) = .ok v σ') ∧
+    (∀ c, c < σ.heap.size → c ≠ A → σ'.heap[c]? = σ.heap[c]?) ∧ σ'.out = σ.out := by
+  intro σ'
+  have e' : σ' = (C05P.paramEntry σ p lp ⟨.list A, sa⟩).set A (.list (listSet items i v)) := rfl
+  clear_value σ'
+  generalize hσp : C05P.paramEntry σ p lp ⟨.list A, sa⟩ = σp at *
+  have hold : ∀ c, c < σ.heap.size → σp.heap[c]? = σ.heap[c]? := fun c hc => by rw [← hσp]; exact paramEntry_old σ p lp _ hc
+  have hlp : σp.getList A = some items := by rw [getList_congr (hold A (getList_lt hl))]; exact hl
+  have hgp : scopeGet σp (σ.heap.size :: clo) p = some ⟨.list A, sa⟩ := by rw [← hσp]; exact paramEntry_param σ clo p lp _
+  obtain ⟨cur, hcur⟩ := getElem?_of_lt hi
+  have hga' : scopeGet σ' sc a = some ⟨.list A, sa⟩ := by
+    rw [e', scopeGet_set_list _ hlp]; exact scopeGet_some_frame hold ha
+  have hl' : σ'.getList A = some (listSet items i v) := by rw [e']; exact getList_set_same _ hlp
+  have hcall : evalCall (n + 8) σ sc (.mk (.Var f) lf) [.mk (.mk (.Var a) la) false] lc = .ok (SVal.plain .null) σ' := by
+    rw [call1_spec (n + 4) lf la lp lc hf hfr hp ha, hσp]
+    have hst := index_assign_stmt (n := n + 2) lp2 ls
+      (evalExpr_fuel_mono he ok_ne_timeout (by omega : n ≤ n + 2 + 2)) hgp (toIndex_lit n _ _ i li) hlp hcur
+    rw [stmts_step _ hst (by omega), evalStmts_nil, e']
+    rfl
+  refine ⟨hcall, fun rest => ?_, hga', hl', fun j l1 l2 l3 => ?_, fun c hc hcA => ?_, ?_⟩
+  · have hst : evalStmt (n + 10) σ sc (.Expr (.mk (.Call (.mk (.Var f) lf) [.mk (.mk (.Var a) la) false]) lc)) =
+        .ok .none σ' := by rw [call_stmt, hcall]; rfl
+    rw [stmts_step _ hst (Nat.le_refl _)]
+  · exact var_index_read j l1 l2 l3 hga' hl' (listSet_get_same items i v hi)
+  · rw [e', set_other _ _ _ hcA, hold c hc]
+  · rw [e', ← hσp]; rfl
+
+/-- **`fn g(p) { p = e; }` … `g(a); rest`**: assigning the parameter re-binds the callee's own variable — the state
+    after the call is the entry state with `p ↦` the new value: no cell that existed has changed, whatever `a` holds -/
+theorem argument_rebind_local {n : Nat} {σ : State} {sc clo : List Addr} {g a p : List Char} {F : Addr} {arg : SVal}
+    {name : Option (List Char)} {e : Expr} {v : SVal} (lp lp2 lf la lc : Loc)
+    (hf : scopeGet σ sc g = some ⟨.func F, none⟩)
+    (hfr : σ.getFunc F = some ⟨name, [.mk (.Var p) lp], false, [.Assign (.mk (.Var p) lp2) e], clo⟩)
+    (hp : p ≠ c!"_") (ha : scopeGet σ sc a = some arg)
+    (he : evalExpr n (C05P.paramEntry σ p lp arg) (σ.heap.size :: clo) e = .ok v (C05P.paramEntry σ p lp arg)) :
+    let σ' := C05P.paramEntry σ p lp v
+    evalCall (n + 8) σ sc (.mk (.Var g) lf) [.mk (.mk (.Var a) la) false] lc = .ok (SVal.plain .null) σ' ∧
+    (∀ rest, evalStmts (n + 11) σ sc
+        (.Expr (.mk (.Call (.mk (.Var g) lf) [.mk (.mk (.Var a) la) false]) lc) :: rest) =
+      evalStmts (n + 10) σ' sc rest) ∧
+    scopeGet σ' sc a = some arg ∧
+    (∀ c, c < σ.heap.size → σ'.heap[c]? = σ.heap[c]?) ∧
+    (∀ A items, σ.getList A = some items → σ'.getList A = some items) ∧
+    (∀ A m, σ.getObj A = some m → σ'.getObj A = some m) ∧ σ'.out = σ.out := by
+  intro σ'
+  have hold : ∀ c, c < σ.heap.size → σ'.heap[c]? = σ.heap[c]? := fun c hc => paramEntry_old σ p lp v hc
+  have hcall : evalCall (n + 8) σ sc (.mk (.Var g) lf) [.mk (.mk (.Var a) la) false] lc = .ok (SVal.plain .null) σ' := by
+    rw [call1_spec (n + 4) lf la lp lc hf hfr hp ha]
+    have hst := assign_var_stmt (n := n) (sc := clo) lp2
+      (evalExpr_fuel_mono he ok_ne_timeout (by omega : n ≤ n + 1)) hp (paramEntry_scope σ p lp arg)
+      (lookup_cons_same p arg lp [])
+    rw [setVal_head] at hst
+    rw [stmts_step _ hst (by omega), evalStmts_nil]
+    unfold C05P.paramEntry
+    rw [set_set]
+    rfl
+  refine ⟨hcall, fun rest => ?_, scopeGet_some_frame hold ha, hold, fun A items h => ?_, fun A m h => ?_, rfl⟩
+  · have hst : evalStmt (n + 10) σ sc (.Expr (.mk (.Call (.mk (.Var g) lf) [.mk (.mk (.Var a) la) false]) lc)) =
+        .ok .none σ' := by rw [call_stmt, hcall]; rfl
+    rw [stmts_step _ hst (Nat.le_refl _)]
+  · rw [getList_congr (hold A (getList_lt h))]; exact h
+  · rw [getObj_congr (hold A (getObj_lt h))]; exact h
+
+/-! ## examples for the program-level theorems -/
+
+def sl (a : Addr) : SVal := SVal.plain (.list a)
+/-- the literal `9` -/
+def e9 : Expr := .mk (.Int 9) (9, 9)
+/-- `fn f(p) { p[0] = 9; }` and `fn g(p) { p = 9; }`, closed over the global scope -/
+def frF : FuncRec :=
+  ⟨some c!"f", [.mk (.Var c!"p") (4, 5)], false,
+    [.Assign (.mk (.Index (.mk (.Var c!"p") (4, 10)) (.mk (.Int (Int.ofNat 0)) (4, 12))) (4, 11)) e9], [0]⟩
+def frG : FuncRec := ⟨some c!"g", [.mk (.Var c!"p") (5, 5)], false, [.Assign (.mk (.Var c!"p") (5, 10)) e9], [0]⟩
+/-- scope 0: `a ↦ list 1`, `o ↦ object 3`, `n ↦ 7`, `f ↦ func 4`, `g ↦ func 5`; list 1 = `[list 2, 5]` (its first element
+    is itself a list), list 2 = `[1]`, object 3 = `{"k": 1}` -/
+def msP : ScopeMap :=
+  [(c!"a", sl 1, (1, 0)), (c!"o", SVal.plain (.obj 3), (2, 0)), (c!"n", sv 7, (3, 0)),
+   (c!"f", SVal.plain (.func 4), (4, 3)), (c!"g", SVal.plain (.func 5), (5, 3))]
+def σP : State :=
+  ⟨#[.scope msP, .list [sl 2, sv 5], .list [sv 1], .obj [(c!"k", sv 1)], .func frF, .func frG], []⟩
+
+theorem e9_pure (n : Nat) (σ : State) (sc : List Addr) : evalExpr (n + 1) σ sc e9 = .ok (sv 9) σ := by
+  unfold e9; rw [evalExpr]; rfl
+
+/-- `d := a; d[1] = 9;` in `σP`: cell 1 becomes `[list 2, 9]`, the scope cell gets `d ↦ list 1` -/
+example :
+    evalStmts 8 σP [0]
+      [.Declare (.mk (.Var c!"d") (6, 0)) (.mk (.Var c!"a") (6, 5)),
+       .Assign (.mk (.Index (.mk (.Var c!"d") (7, 0)) (.mk (.Int (Int.ofNat 1)) (7, 2))) (7, 1)) e9] =
+      evalStmts 6 ((σP.set 0 (.scope ((c!"d", sl 1, (6, 0)) :: msP))).set 1 (.list [sl 2, sv 9])) [0] [] :=
+  (alias_mutation_visible (n := 1) (σ := σP) (sc' := []) (ms := msP) (a := c!"a") (b := c!"d") (A := 1) (sa := none)
+    (la := (1, 0)) (items := [sl 2, sv 5]) (i := 1) (e := e9) (v := sv 9) (6, 0) (6, 5) (7, 0) (7, 2) (7, 1)
+    (by rfl) (by decide) (by decide) (by decide) (by rfl) (by decide) (e9_pure 0 _ _)).1 []
+
+/-- `d := a; d[1] = [];` in `σP`: the right-hand side allocates (cell 6) before the write -/
+example :
+    evalStmts 9 σP [0]
+      [.Declare (.mk (.Var c!"d") (6, 0)) (.mk (.Var c!"a") (6, 5)),
+       .Assign (.mk (.Index (.mk (.Var c!"d") (7, 0)) (.mk (.Int (Int.ofNat 1)) (7, 2))) (7, 1)) (.mk (.List [] false) (7, 7))] =
+      evalStmts 7 (((σP.set 0 (.scope ((c!"d", sl 1, (6, 0)) :: msP))).alloc (.list [])).2.set 1 (.list [sl 2, sl 6])) [0] [] :=
+  (alias_mutation_visible_effects (n := 2) (σ := σP) (sc' := []) (ms := msP) (a := c!"a") (b := c!"d") (A := 1) (sa := none)
+    (σ2 := ((σP.set 0 (.scope ((c!"d", sl 1, (6, 0)) :: msP))).alloc (.list [])).2) (sa2 := none) (sb2 := none)
+    (la := (1, 0)) (items2 := [sl 2, sv 5]) (i := 1) (v := sl 6) (6, 0) (6, 5) (7, 0) (7, 2) (7, 1)
+    (by rfl) (by decide) (by decide) (by decide) (by with_unfolding_all rfl) (by rfl) (by rfl) (by rfl) (by decide)).1 []
+
+/-- `p := o; p.k = 9;` and `p := o; p["j"] = 9;` in `σP` -/
+example :
+    evalStmts 6 σP [0]
+      [.Declare (.mk (.Var c!"p") (6, 0)) (.mk (.Var c!"o") (6, 5)),
+       .Assign (.mk (.Prop (.mk (.Var c!"p") (7, 0)) c!"k" false) (7, 1)) e9] =
+      evalStmts 4 ((σP.set 0 (.scope ((c!"p", SVal.plain (.obj 3), (6, 0)) :: msP))).set 3 (.obj [(c!"k", sv 9)])) [0] [] :=
+  (alias_mutation_visible_prop (n := 1) (σ := σP) (sc' := []) (ms := msP) (a := c!"o") (b := c!"p") (k := c!"k") (A := 3)
+    (sa := none) (la := (2, 0)) (m := [(c!"k", sv 1)]) (e := e9) (v := sv 9) (6, 0) (6, 5) (7, 0) (7, 1)
+    (by rfl) (by decide) (by decide) (by decide) (by rfl) (e9_pure 0 _ _)).1 []
+
+example :
+    evalStmts 6 σP [0]
+      [.Declare (.mk (.Var c!"p") (6, 0)) (.mk (.Var c!"o") (6, 5)),
+       .Assign (.mk (.Index (.mk (.Var c!"p") (7, 0)) (.mk (.Str c!"j" none) (7, 2))) (7, 1)) e9] =
+      evalStmts 4 ((σP.set 0 (.scope ((c!"p", SVal.plain (.obj 3), (6, 0)) :: msP))).set 3
+        (.obj [(c!"j", sv 9), (c!"k", sv 1)])) [0] [] :=
+  (alias_mutation_visible_key (n := 1) (σ := σP) (sc' := []) (ms := msP) (a := c!"o") (b := c!"p") (k := c!"j") (A := 3)
+    (sa := none) (la := (2, 0)) (m := [(c!"k", sv 1)]) (e := e9) (ke := .mk (.Str c!"j" none) (7, 2)) (v := sv 9)
+    (6, 0) (6, 5) (7, 0) (7, 1)
+    (by rfl) (by decide) (by decide) (by decide) (by rfl) (e9_pure 0 _ _)
+    (toStr_lit 0 _ _ _ c!"j" (7, 2) (by rfl))).1 []
+
+/-- `d := [a..]; d[1] = 9;` (and the three other copying forms) in `σP`: the new cell 6 is `[list 2, 9]`, cell 1 is
+    untouched, and `d[0] === a[0]` — the shared inner list, cell 2 — is true -/
+example :
+    let σ3 := ((σP.alloc (.list [sl 2, sv 5])).2.set 0 (.scope ((c!"d", sl 6, (6, 0)) :: msP))).set 6 (.list [sl 2, sv 9])
+    evalStmts 8 σP [0]
+      [.Declare (.mk (.Var c!"d") (6, 0)) (.mk (.List [.mk (.mk (.Var c!"a") (6, 6)) true] false) (6, 5)),
+       .Assign (.mk (.Index (.mk (.Var c!"d") (7, 0)) (.mk (.Int (Int.ofNat 1)) (7, 2))) (7, 1)) e9] =
+      evalStmts 6 σ3 [0] [] ∧
+    σ3.getList 1 = some [sl 2, sv 5] ∧
+    evalExpr 5 σ3 [0]
+      (.mk (.BinaryOp .RefEq (8, 5)
+        (.mk (.Index (.mk (.Var c!"d") (8, 0)) (.mk (.Int (Int.ofNat 0)) (8, 2))) (8, 1))
+        (.mk (.Index (.mk (.Var c!"a") (8, 9)) (.mk (.Int (Int.ofNat 0)) (8, 11))) (8, 10))) (8, 5)) =
+      .ok (SVal.plain (.bool true)) σ3 := by
+  have h := copy_mutation_invisible (n := 1) (a := c!"a") (A := 1) (sa := none) (la := (1, 0)) (i := 1) (e := e9) (v := sv 9)
+    (6, 0) (7, 0) (7, 2) (7, 1)
+    (copy_by_spread (σ := σP) (A0 := 0) (sc' := []) (ms := msP) (a := c!"a") (b := c!"d") (A := 1) (s := none)
+      (items := [sl 2, sv 5]) 0 (6, 0) (6, 6) (6, 5) (by rfl) (by rfl) (by rfl) (by decide) (by decide))
+    (by decide) (by rfl) (by decide) (by decide) (by rfl) (by decide) (e9_pure 0 _ _)
+  exact ⟨h.1 [], h.2.1, h.2.2.2.2.2.2.2.2.1 0 2 none none (by decide) (by rfl) (by rfl) 0 _ _ _ _ _ _ _ _⟩
+
+example : C05P.FreshCopy 4 σP 0 [] msP
+    (.Declare (.mk (.Var c!"d") (6, 0)) (.mk (.BinaryOp .Sum (6, 7) (.mk (.Var c!"a") (6, 5)) (.mk (.List [] false) (6, 9))) (6, 7)))
+    c!"d" (6, 0) 7 [sl 2, sv 5] ((σP.alloc (.list [])).2.alloc (.list [sl 2, sv 5])).2 :=
+  copy_by_sum (a := c!"a") (A := 1) (s := none) 0 (6, 0) (6, 5) (6, 7) (6, 9) (6, 7) (by rfl) (by rfl) (by rfl)
+    (by decide) (by decide)
+
+example : C05P.FreshCopy 6 σP 0 [] msP
+    (.Declare (.mk (.Var c!"d") (6, 0)) (.mk (.RangeIndex (.mk (.Var c!"a") (6, 5)) (some (.mk (.Int (Int.ofNat 0)) (6, 7)))
+      (some (.mk (.Int (Int.ofNat 2)) (6, 9)))) (6, 6)))
+    c!"d" (6, 0) 6 [sl 2, sv 5] (σP.alloc (.list [sl 2, sv 5])).2 :=
+  copy_by_range (a := c!"a") (A := 1) (s := none) (items := [sl 2, sv 5]) 0 2 (6, 0) (6, 5) (6, 7) (6, 9) (6, 6)
+    (by rfl) (by rfl) (by rfl) (by decide) (by decide) (by decide)
+
+example : C05P.FreshCopy 5 σP 0 [] msP
+    (.Declare (.mk (.List [.mk (.mk (.Var c!"d") (6, 3)) false] true) (6, 0)) (.mk (.Var c!"a") (6, 10)))
+    c!"d" (6, 3) 6 [sl 2, sv 5] (σP.alloc (.list [sl 2, sv 5])).2 :=
+  copy_by_collect (a := c!"a") (A := 1) (s := none) 0 (6, 3) (6, 10) (6, 0) (by rfl) (by rfl) (by rfl)
+    (by decide) (by decide)
+
+/-- `m := n; m += 9;` in `σP`: `n` still reads 7, `m` reads 16 -/
+example :
+    let σ4 := σP.set 0 (.scope ((c!"m", sv 16, (6, 0)) :: msP))
+    evalStmts 5 σP [0]
+      [.Declare (.mk (.Var c!"m") (6, 0)) (.mk (.Var c!"n") (6, 5)),
+       .OpAssign (.mk (.Var c!"m") (7, 0)) .Sum (7, 2) e9] = evalStmts 3 σ4 [0] [] ∧
+    evalExpr 1 σ4 [0] (.mk (.Var c!"n") (8, 0)) = .ok (sv 7) σ4 := by
+  have h := int_copy_independent (n := 1) (σ := σP) (A0 := 0) (sc' := []) (ms := msP) (a := c!"n") (b := c!"m") (x := 7) (y := 9)
+    (sx := none) (sy := none) (la := (3, 0)) (e := e9) (6, 0) (6, 5) (7, 0) (7, 2)
+    (by rfl) (by decide) (by decide) (by decide) (e9_pure 0 _ _) (by decide)
+  exact ⟨h.1 [], h.2.1 0 _⟩
+
+/-- `m := n; m = 9;` -/
+example :
+    evalStmts 5 σP [0]
+      [.Declare (.mk (.Var c!"m") (6, 0)) (.mk (.Var c!"n") (6, 5)), .Assign (.mk (.Var c!"m") (7, 0)) e9] =
+      evalStmts 3 (σP.set 0 (.scope ((c!"m", sv 9, (6, 0)) :: msP))) [0] [] :=
+  (copy_then_assign_independent (n := 1) (σ := σP) (sc' := []) (ms := msP) (a := c!"n") (b := c!"m") (va := sv 7)
+    (ve := sv 9) (la := (3, 0)) (e := e9) (6, 0) (6, 5) (7, 0)
+    (by rfl) (by decide) (by decide) (by decide) (e9_pure 0 _ _)).1 []
+
+/-- `d := a; d += [9];` in `σP`: cell 1 is untouched, `d` is re-bound to the new cell 7 = `[list 2, 5, 9]` -/
+example :
+    let σ4 := ((((σP.set 0 (.scope ((c!"d", sl 1, (6, 0)) :: msP))).alloc (.list [sv 9])).2.alloc
+      (.list [sl 2, sv 5, sv 9])).2).set 0 (.scope ((c!"d", sl 7, (6, 0)) :: msP))
+    evalStmts 6 σP [0]
+      [.Declare (.mk (.Var c!"d") (6, 0)) (.mk (.Var c!"a") (6, 5)),
+       .OpAssign (.mk (.Var c!"d") (7, 0)) .Sum (7, 2) (.mk (.List [.mk e9 false] false) (7, 5))] =
+      evalStmts 4 σ4 [0] [] ∧ σ4.getList 1 = some [sl 2, sv 5] := by
+  have h := opassign_rebinds_not_mutates (n := 1) (σ := σP) (A0 := 0) (sc' := []) (ms := msP) (a := c!"a") (b := c!"d") (A := 1)
+    (sa := none) (la := (1, 0)) (items := [sl 2, sv 5]) (x := e9) (vx := sv 9) (6, 0) (6, 5) (7, 0) (7, 2) (7, 5)
+    (by rfl) (by decide) (by decide) (by decide) (by rfl) (e9_pure 0 _ _)
+  exact ⟨h.1 [], h.2.1⟩
+
+/-- `f(a);` with `fn f(p) { p[0] = 9; }` in `σP`: cell 1 becomes `[9, 5]`; `g(a);` with `fn g(p) { p = 9; }`: no cell that
+    existed changes -/
+example :
+    evalCall 9 σP [0] (.mk (.Var c!"f") (6, 0)) [.mk (.mk (.Var c!"a") (6, 2)) false] (6, 1) =
+      .ok (SVal.plain .null) ((C05P.paramEntry σP c!"p" (4, 5) (sl 1)).set 1 (.list [sv 9, sv 5])) :=
+  (argument_alias (n := 1) (σ := σP) (sc := [0]) (clo := [0]) (f := c!"f") (a := c!"a") (p := c!"p") (F := 4) (A := 1)
+    (sa := none) (name := some c!"f") (items := [sl 2, sv 5]) (i := 0) (e := e9) (v := sv 9)
+    (4, 5) (4, 10) (4, 12) (4, 11) (6, 0) (6, 2) (6, 1)
+    (by rfl) (by rfl) (by decide) (by rfl) (by rfl) (by decide) (e9_pure 0 _ _)).1
+
+example :
+    evalCall 9 σP [0] (.mk (.Var c!"g") (6, 0)) [.mk (.mk (.Var c!"a") (6, 2)) false] (6, 1) =
+      .ok (SVal.plain .null) (C05P.paramEntry σP c!"p" (5, 5) (sv 9)) ∧
+    (C05P.paramEntry σP c!"p" (5, 5) (sv 9)).getList 1 = some [sl 2, sv 5] := by
+  have h := argument_rebind_local (n := 1) (σ := σP) (sc := [0]) (clo := [0]) (g := c!"g") (a := c!"a") (p := c!"p") (F := 5)
+    (arg := sl 1) (name := some c!"g") (e := e9) (v := sv 9) (5, 5) (5, 10) (6, 0) (6, 2) (6, 1)
+    (by rfl) (by rfl) (by decide) (by rfl) (e9_pure 0 _ _)
+  exact ⟨h.1, h.2.2.2.2.1 1 _ (by rfl)⟩
+
+/-! ### the same through the whole pipeline (`run`: lex, parse, evaluate) -/
+
+/-- (1) a mutation through an alias is seen through the other name, for lists and objects -/
+example : (run 100 c!"t.sd" c!"a := [1, 2];\nb := a;\nb[0] = 9;\nprint(a[0]);\nprint(a === b);\n").out =
+    [c!"9", c!"true"] := by decide +kernel
+
+example : (run 100 c!"t.sd"
+    c!"o := {\"k\": 1};\np := o;\np.k = 2;\nprint(o.k);\np[\"j\"] = 3;\nprint(o[\"j\"]);\nprint(o === p);\n").out =
+    [c!"2", c!"3", c!"true"] := by decide +kernel
+
+/-- (2) the four copying forms give a different container … -/
+example : (run 100 c!"t.sd" c!"a := [1, 2];\nc := [a..];\nc[1] = 7;\nprint(a[1]);\nprint(a === c);\n").out =
+    [c!"2", c!"false"] := by decide +kernel
+example : (run 100 c!"t.sd" c!"a := [1, 2];\nc := a + [];\nc[1] = 7;\nprint(a[1]);\nprint(a === c);\n").out =
+    [c!"2", c!"false"] := by decide +kernel
+example : (run 100 c!"t.sd" c!"a := [1, 2];\nc := a[0:2];\nc[1] = 7;\nprint(a[1]);\nprint(a === c);\n").out =
+    [c!"2", c!"false"] := by decide +kernel
+example : (run 100 c!"t.sd" c!"a := [1, 2];\n[..c] := a;\nc[1] = 7;\nprint(a[1]);\nprint(a === c);\n").out =
+    [c!"2", c!"false"] := by decide +kernel
+
+/-- … that shares the elements: the inner list is the same cell -/
+example : (run 100 c!"t.sd"
+    c!"a := [[1], 2];\nc := [a..];\nc[1] = 7;\nprint(c[0] === a[0]);\nc[0][0] = 5;\nprint(a[0][0]);\n").out =
+    [c!"true", c!"5"] := by decide +kernel
+
+/-- (3) scalars are copied -/
+example : (run 100 c!"t.sd"
+    c!"n := 7;\nm := n;\nm += 1;\nprint(n);\nprint(m);\ns := \"x\";\nt := s;\nt += \"y\";\nprint(s);\nt = \"z\";\nprint(s);\n").out =
+    [c!"7", c!"8", c!"x", c!"x"] := by decide +kernel
+
+/-- (4) a parameter assignment is local, a mutation through the parameter is not -/
+example : (run 100 c!"t.sd"
+    c!"fn f(p) { p[0] = 9; }\nfn g(p) { p = [9]; }\na := [1, 2];\ng(a);\nprint(a[0]);\nf(a);\nprint(a[0]);\n").out =
+    [c!"1", c!"9"] := by decide +kernel
+
+/-- (5) `+=` on a list re-binds -/
+example : (run 100 c!"t.sd" c!"a := [1, 2];\nb := a;\nb += [3];\nprint(a === b);\nprint(b[2]);\nprint(a == [1, 2]);\n").out =
+    [c!"false", c!"3", c!"true"] := by decide +kernel
 
 end Seed.C05
